@@ -247,6 +247,18 @@ func (c *Ctx) specCall(name string, e *ast.CallExpr) (Value, bool) {
 			panic(engineErr("%s(s): byte slice expected", name))
 		}
 		return Scalar(x.byteOrder32(name, v.Arr), types.Typ[types.Uint32]), true
+	case "beforecall":
+		// beforecall(f, e): the value of e right before the most recent call of the contracted function f on this path
+		// (the current value when f was not called on this path)
+		id, ok := e.Args[0].(*ast.Ident)
+		if !ok || len(e.Args) != 2 {
+			panic(engineErr("beforecall(f, e): function name and expression expected"))
+		}
+		n := *c
+		if snap := c.st.after["<"+id.Name]; snap != nil {
+			n.st = snap
+		}
+		return n.eval(e.Args[1]), true
 	case "aftercall":
 		// aftercall(f, e): the value of e right after the most recent call of the contracted function f on this path
 		// (at function entry when f was not called on this path)
